@@ -3,11 +3,14 @@ import ScVerif.C11.Lockset
 import ScVerif.C11.Slice
 import ScVerif.C11.ExecCheck
 import ScVerif.C11.ExecNeed
+import ScVerif.C11.ExecSync
 /-! Driver handler for C11: evaluates the executable lockset definitions on rows sent by the harness.
 
 Row encoding (no spaces): `field,kind,phase,role,held,rel,acq` with `kind ∈ {R,W}`, `phase ∈ {init,live}`,
 `held = l:R;l:X;…` or `-`, `rel`/`acq` = `c;c;…` or `-`; all names are numbers.
 
+* `own <t> <i> <j> <ev> …`  → `norelease=<0|1> noacquire=<0|1>` (ExecSync.lean: goroutine t executes no release at
+                              positions [i, j) / no acquire at positions (i, j]; events as for `exec`, plus `X/t` an access)
 * `pair <rowA> <rowB>`      → `conflict=<0|1> ordered=<0|1> ok=<0|1>`
 * `racefree <row> <row> …`  → `true` | `false i:j,i:j,…` (unordered conflicting pairs, i ≤ j)
 * `grouped <row> <row> …`   → `grouped=<0|1> sorted=<0|1> racefree=<0|1>` (the kernel's decision `raceFreeG`)
@@ -67,6 +70,7 @@ def parseEv? (s : String) : Option XEv :=
   | ["G", t] => do pure (XEv.get (← parseNat? t))
   | ["D", t] => do pure (XEv.leave (← parseNat? t))
   | ["J", t] => do pure (XEv.join (← parseNat? t))
+  | ["X", t] => do pure (XEv.acc (← parseNat? t) ⟨0, .R, 0, [], .live, 0, [], []⟩)
   | _ => none
 
 def showExec (n : Nat) (s : XState) : String :=
@@ -116,6 +120,10 @@ def handle (toks : List String) : String :=
       let ord := orderedB a b
       s!"valid={bit valid} conf={bit conf} sync={bit (syncBetween es n (n + 1))} ordered={bit ord} consistent={bit (!(valid && conf && ord))}"
     | _, _ => "!bad-op"
+  | "own" :: t :: i :: j :: evs =>
+    match parseNat? t, parseNat? i, parseNat? j, evs.mapM parseEv? with
+    | some t, some i, some j, some es => s!"norelease={bit (noReleaseBy es t i j)} noacquire={bit (noAcquireBy es t i j)}"
+    | _, _, _, _ => "!bad-op"
   | "exec" :: cr :: evs =>
     match parseNat? cr, evs.mapM parseEv? with
     | some cr, some es =>
